@@ -564,6 +564,17 @@ func Explore(run *evid.Run, spec Spec, tier string, smp *evid.Samples) Stats {
 	return st
 }
 
+// Pre holds what went wrong while an instance was brought into its start state (the unrecorded prefix of a
+// scenario). It is a verdict about the implementation, not an infrastructure error: the first Apply hands it out
+// as violations of that step, so that it is confirmed, reported and replayable like any other.
+type Pre struct{ v []Viol }
+
+func (p *Pre) Add(vs ...Viol) { p.v = append(p.v, vs...) }
+func (p *Pre) Fail(prop, what string) {
+	p.v = append(p.v, Viol{Sig: prop + ":start-state", What: "while reaching the start state of the scenario: " + what})
+}
+func (p *Pre) Take() []Viol { v := p.v; p.v = nil; return v }
+
 // TransientCrashes counts worker deaths that did not happen again when the same job was re-run in a fresh
 // process (e.g. a fault inside the Go runtime's own goroutine traceback, which the quiescence test calls very
 // often): environment noise, listed in the evidence, never a verdict about the UPF.
